@@ -55,6 +55,9 @@ def alphabet(cls_name, aw):
     # the radio put to sleep and woken up again (sleepy receiver / transmitter); judged by the clauses that speak about
     # states only (CE high whenever PWR_UP=1 and PRIM_RX=1 at a return; the RX / TX clauses at later listen / open_tx_pipe calls)
     ops += [("power", False), ("power", True)]
+    # another object of the same class, in the same program, on a radio of its own, is set up and used (H.bystander: it opens
+    # its own pipes 0 / 1 / 4, a TX pipe, toggles listen, fails one transmission); invisible to this object on a correct library
+    ops += [("other",)]
     ops += [("tx1",)]  # one unacknowledged transmission (leaves CE high in TX mode); offered in TX mode only
     return ops
 
@@ -73,6 +76,8 @@ def op_str(op):
         return "set_auto_ack(%s,0)" % op[1]
     if k == "tx1":
         return "send(1 byte, ask_no_ack=True)"
+    if k == "other":
+        return "<another object of the class is set up and used on its own radio>"
     if k == "power":
         return "power=%s" % op[1]
     return "listen=%s" % op[1]
@@ -182,6 +187,11 @@ def step(st, op, ctx):
             m.auto_ack(bool(op[1]))
         elif kind == "tx1":
             drv.send(b"\x01", ask_no_ack=True)
+        elif kind == "other":
+            try:
+                H.bystander(sim.World().activate(), type(drv))  # (a world of its own: nothing is added to this state)
+            finally:
+                w.activate()
         elif kind == "listen":
             drv.listen = op[1]
             m.listen(op[1])
@@ -319,6 +329,8 @@ def w_bfs(item, rep):
                           {"cls": cls_name, "aw": aw, "seed": seed, "flip": flip, "ops": hist[1:] + [op], "addr": ctx["addr"]})
         if len(rep.samples) < 2 and nt is not None and len(hist) >= 3:
             rep.sample({"part": part, "ops": [op_str(o) for o in hist[1:] + [op]], "outcome": outcome})
+        if viol:
+            return False  # a call sequence is cut at its first violation (its continuations would only repeat it)
 
     s0 = rep.states
     def alpha(st):
